@@ -356,7 +356,8 @@ impl<W: io::Write> Writer<W> {
         let attributes = if !record.attributes.is_empty() {
             record
                 .attributes
-                .iter()
+                .iter_all()
+                .flat_map(|(a, bs)| bs.iter().map(move |b| (a, b)))
                 .map(|(a, b)| format!("{}{}{}", a, self.delimiter, b))
                 .join(&self.terminator)
         } else {
